@@ -24,6 +24,9 @@ CLANG = "clang"
 CLANGXX = "clang++"
 
 SAN_FLAGS = ["-fsanitize=address,undefined", "-fno-sanitize-recover=undefined",
+             # NULL+0 pointer arithmetic is reported by this sub-check; three sites were repaired in /repo, the
+             # rest of that idiom is accepted (DESIGN.md, Corrections): real overflows still trip ASan
+             "-fno-sanitize=pointer-overflow",
              "-fno-omit-frame-pointer"]
 VARIANT_FLAGS = {
     # library asserts join the oracle: never -DNDEBUG
@@ -42,6 +45,7 @@ class BuildError(Exception):
 
 def _sha(paths):
     h = hashlib.sha1()
+    h.update(repr(sorted(VARIANT_FLAGS.items())).encode())   # a flag change invalidates the cache too
     for p in sorted(paths):
         h.update(p.encode())
         try:
